@@ -42,10 +42,11 @@ BUDGET = {"quick": (200, 80), "thorough": (300, 900)}
 
 def grid(tier):
     cap = 130 if tier == "quick" else 500
-    for nb in range(1, 6):
-        for depth in range(0, 14):          # (depths with two-digit indices included)
-            if math.comb(nb + depth, depth) <= cap:
-                yield {"kind": "index", "nbath": nb, "depth": depth}
+    cells = [(math.comb(nb + depth, depth), nb, depth) for nb in range(1, 6)
+             for depth in range(0, 14)]          # (depths with two-digit indices included)
+    for size, nb, depth in sorted(cells):        # small hierarchies first
+        if size <= cap:
+            yield {"kind": "index", "nbath": nb, "depth": depth}
 
 
 @st.composite
